@@ -1019,7 +1019,17 @@ def run_history(job):
                         rec["skipped"] = True
                         rec["alias_target"] = True
                     else:
+                        d0 = digest(pool[k]["v"])
                         mutate_in_place(pool[k]["v"], how, salt=step + 1)
+                        if digest(pool[k]["v"]) == d0:
+                            # the write had nothing to change (an EMPTY frame, e.g. billing_df of a single billing period:
+                            # cell / fill / buffer / drop writes are no-ops there): a caller's write that always shows
+                            tgt = pool[k]["v"]
+                            if isinstance(tgt, pd.Series):
+                                tgt.rename("__caller_name_%d__" % (step + 1), inplace=True)
+                            else:
+                                tgt["__caller_column_%d__" % (step + 1)] = 1.0
+                            rec["how"] = how + "->column (nothing to change)"
             else:
                 rec["skipped"] = True
         except Exception as e:  # noqa
